@@ -96,6 +96,96 @@ Definition old_oracle_column_comment : list piece :=
 Definition old_mssql_rename_table : list piece :=
   [K "EXEC sp_rename "; StrLit [(false, ITbl NTable true)]; K ", "; Tbl NNewTable false].
 
+(* ------------------------------------------------------------------ operations: the impl-level dispatch *)
+
+(* every construct the dispatch builds is given the operation's table, column, schema and new names
+   (MySQLModifyColumn is given newname = column_name, which its visitor never reads) *)
+Definition step_carries (n:names) (s:pstep) : Prop :=
+  match s with
+  | SRaise _ => True
+  | SEmit c t col sc nn nt =>
+      t = n_table n /\ col = n_column n /\ sc = n_schema n /\ nt = n_newtable n /\
+      (nn = n_newcolumn n \/ (nn = n_column n /\ exists a b x y, c = CMysqlModify a b x y))
+  end.
+
+Lemma default_alter_carries n nl df rn ty cm : Forall (step_carries n) (default_alter n nl df rn ty cm).
+Proof.
+  unfold default_alter, alter, alter_named.
+  destruct (is_given nl), (requested df), ty, (requested cm), rn; cbn [app];
+    repeat (apply Forall_cons; [cbn; tauto|]); apply Forall_nil.
+Qed.
+
+Lemma plan_carries n d o : Forall (step_carries n) (plan n d o).
+Proof.
+  destruct o as [| |df ck fk|r]; cbn [plan].
+  - apply Forall_cons; [cbn; tauto | apply Forall_nil].
+  - apply Forall_cons; [cbn; tauto | apply Forall_nil].
+  - apply Forall_app. split.
+    + destruct d; try apply Forall_nil. unfold alter.
+      destruct df, ck, fk; cbn [app]; repeat (apply Forall_cons; [cbn; tauto|]); apply Forall_nil.
+    + apply Forall_cons; [cbn; tauto | apply Forall_nil].
+  - destruct d.
+    + apply default_alter_carries.
+    + unfold pg_alter. destruct (r_using r && negb (r_type r)).
+      * apply Forall_cons; [exact I | apply Forall_nil].
+      * apply Forall_app. split; [|apply default_alter_carries].
+        destruct (r_type r); [apply Forall_cons; [cbn; tauto | apply Forall_nil] | apply Forall_nil].
+    + unfold mysql_alter. destruct (mysql_flags r) as [[[nl ai] df] cm].
+      destruct (r_rename r).
+      * destruct (r_type r || r_ex_type r); (apply Forall_cons; [cbn; tauto | apply Forall_nil]).
+      * destruct (is_given (r_nullable r) || r_type r || is_given (r_autoinc r) || requested (r_comment r)).
+        -- destruct (r_type r || r_ex_type r); (apply Forall_cons; [|apply Forall_nil]); [|exact I].
+           cbn. repeat split; auto. right. split; [reflexivity|]. eauto.
+        -- destruct (requested (r_default r)); [apply Forall_cons; [cbn; tauto | apply Forall_nil] | apply Forall_nil].
+    + unfold mssql_alter. destruct (is_given (r_nullable r) && negb (r_type r) && negb (r_ex_type r)).
+      * apply Forall_cons; [exact I | apply Forall_nil].
+      * destruct (if is_given (r_nullable r) then (r_nullable r, false)
+                  else if is_given (r_ex_nullable r) && r_type r then (r_ex_nullable r, false) else (TNone, r_type r)) as [nl ty].
+        apply Forall_app; split; [apply default_alter_carries|]. apply Forall_app; split.
+        -- destruct (requested (r_default r)); [|apply Forall_nil]. apply Forall_app. split.
+           ++ destruct (requested (r_ex_default r) || negb (is_set (r_default r))); [|apply Forall_nil].
+              apply Forall_cons; [cbn; tauto | apply Forall_nil].
+           ++ destruct (is_set (r_default r)); [apply default_alter_carries | apply Forall_nil].
+        -- destruct (r_rename r); [apply default_alter_carries | apply Forall_nil].
+    + apply default_alter_carries.
+Qed.
+
+Lemma modify_ignores_newname d a b x y sc t nt c nn nn' opq :
+  emit_stmt (d, CMysqlModify a b x y, mkEnv sc t nt c nn opq) = emit_stmt (d, CMysqlModify a b x y, mkEnv sc t nt c nn' opq).
+Proof. destruct d, a, b, x, y; reflexivity. Qed.
+
+Lemma step_emits_as_op d n c t col sc nn nt opq : step_carries n (SEmit c t col sc nn nt) ->
+  emit_stmt (d, c, step_env t col sc nn nt opq) = emit_stmt (d, c, op_env n opq).
+Proof.
+  cbn. intros (-> & -> & -> & -> & [->|[-> (a & b & x & y & ->)]]); unfold step_env, op_env; [reflexivity|].
+  apply modify_ignores_newname.
+Qed.
+
+Lemma run_plan_holds d n p : Forall (step_carries n) p -> forall opqs,
+  forallb (fun opq => env_ok (qspec_of d) (op_env n opq)) ([] :: opqs) = true ->
+  steps_hold d n opqs (fst (run_plan d opqs p)).
+Proof.
+  induction 1 as [|s p Hs Hp IH]; intros opqs E; [exact I|].
+  destruct s as [c t col sc nn nt|e]; [|exact I].
+  cbn [run_plan]. rewrite (step_emits_as_op d n c t col sc nn nt _ Hs).
+  assert (E0 : env_ok (qspec_of d) (op_env n (hd [] opqs)) = true).
+  { cbn [forallb] in E. apply andb_true_iff in E as [E1 E2]. destruct opqs as [|o r]; [exact E1|].
+    cbn [forallb hd] in *. now apply andb_true_iff in E2 as [E2 _]. }
+  assert (E1 : forallb (fun opq => env_ok (qspec_of d) (op_env n opq)) ([] :: tl opqs) = true).
+  { cbn [forallb] in *. apply andb_true_iff in E as [E1 E2]. rewrite E1. destruct opqs as [|o r]; [reflexivity|].
+    cbn [forallb tl] in *. now apply andb_true_iff in E2 as [_ E2]. }
+  pose proof (main_generic d c _ (wf_table d c) E0) as H.
+  destruct (emit_stmt (d, c, op_env n (hd [] opqs))) as [sql off|x] eqn:M.
+  - specialize (IH (tl opqs) E1). destruct (run_plan d (tl opqs) p) as [l e]. cbn [fst steps_hold o_c o_out]. split; [exact H | exact IH].
+  - cbn [fst steps_hold o_c o_out]. split; [exact I | exact I].
+Qed.
+
+Lemma check_steps_sound d n : forall steps opqs, check_steps d n opqs steps = true -> steps_hold d n opqs steps.
+Proof.
+  induction steps as [|s r IH]; intros opqs H; [exact I|]. cbn [check_steps steps_hold] in *.
+  apply andb_true_iff in H as [H1 H2]. split; [now apply check_stmt_sound | now apply IH].
+Qed.
+
 (* ------------------------------------------------------------------ corollaries in terms of single names *)
 
 Lemma flat_map_in_split {A B} (f:A -> list B) l x : In x l -> exists pre post, flat_map f l = pre ++ f x ++ post.
@@ -114,9 +204,10 @@ Qed.
 
 Lemma decider_sound c o : check_C14 c o = true -> C14_case_holds c o.
 Proof.
-  destruct c as [d k e|d s|d], o as [out|r|]; cbn [check_C14 C14_case_holds]; try discriminate; auto.
+  destruct c as [d k e|d s|d|d o0 n opqs], o as [out|r| |steps raised]; cbn [check_C14 C14_case_holds]; try discriminate; auto.
   - apply (check_stmt_sound (d, k, e)).
   - destruct r as [t|]; [|auto]. now rewrite tokens_eqb_eq.
+  - apply check_steps_sound.
 Qed.
 
 Lemma quote_alone q s t : qspec_wf q = true -> name_ok q s = true -> quote q s = Some t -> lex q t = [ident_token q s].
@@ -127,9 +218,11 @@ Proof. destruct d; reflexivity. Qed.
 
 Lemma model_holds c : inclass_C14 c = true -> C14_case_holds c (model_C14 c).
 Proof.
-  destruct c as [d k e|d s|d]; cbn [inclass_C14 model_C14 C14_case_holds]; auto.
+  destruct c as [d k e|d s|d|d o0 n opqs]; cbn [inclass_C14 model_C14 C14_case_holds]; auto.
   - intro E. apply main_generic; [apply wf_table | exact E].
   - intro N. destruct (quote (qspec_of d) s) as [t|] eqn:Q; [|exact I]. now apply quote_alone; [apply qspecs_wf| |].
+  - intro E. pose proof (run_plan_holds d n (plan n d o0) (plan_carries n d o0) opqs E) as H.
+    unfold run_op. destruct (run_plan d opqs (plan n d o0)) as [l e]. exact H.
 Qed.
 
 Lemma corr_is_model c o : corr_C14 c o = true -> match c, o with
@@ -137,10 +230,9 @@ Lemma corr_is_model c o : corr_C14 c o = true -> match c, o with
   | CaseQuote d s, ObsQuote r => r = quote (qspec_of d) s
   | _, _ => True end.
 Proof.
-  destruct c as [d k e|d s|d], o as [out|r|]; cbn [corr_C14]; auto.
+  destruct c as [d k e|d s|d|d o0 n opqs], o as [out|r| |steps raised]; cbn [corr_C14]; auto.
   - destruct (emit_stmt (d, k, e)) as [a b|x], out as [a' b'|y]; simpl; try discriminate.
     + rewrite andb_true_iff, !str_eqb_eq. now intros [-> ->].
-    + destruct x; discriminate.
     + destruct x, y; simpl; try discriminate; auto.
   - destruct (quote (qspec_of d) s) as [a|], r as [b|]; simpl; try discriminate; auto. rewrite str_eqb_eq. now intros ->.
 Qed.
